@@ -76,11 +76,13 @@ def run(ctx):
     ctx.cov['evaluations'] += nexec
     ctx.cov['distinct_nontrivial'] += len(distinct)
     ctx.cov['rule'] = ('random op programs for Graph and BiPropGraph (1..4 subgraphs, <= 60 nodes, hidden-rank DAG edges with hubs and duplicate edges, BiProp edges, '
-                       'clear + rebuild rounds, marking + ForwardPropagator rounds, occasional unprepared executions) x 4 executor variants x pool sizes 1..4.  '
+                       'clear + rebuild rounds, marking + ForwardPropagator rounds, occasional unprepared executions) x 4 executor variants x pool sizes 1..4; ONE executor object of each kind and ONE ForwardPropagator per case, reused by every run incl. after runs aborted by a throwing node (ops E / F).  '
                        'evaluation = one executor run judged in Coq; non-trivial = at least one dependency edge between two incomplete nodes at the time of the run; '
                        'distinct = distinct program prefixes')
     ctx.cov['event_histogram'] = {'%s:%d' % ({0: 'exec', 1: 'dump', 2: 'propagate'}[k], c): v for (k, c), v in sorted(hist.items())}
     ctx.cov['cases'] = len(res)
+    ctx.cov['aborted_runs_then_reuse'] = {'single_thread_executor(E)': sum(1 for l, _, _ in res if ' E ' in l),
+                                          'parallel_executors(F)': sum(1 for l, _, _ in res if ' F ' in l)}
     for line, out, ev in res[:2] + res[len(res) // 2:len(res) // 2 + 1]:
         ctx.sample({'case': line[:300], 'impl': (out or '')[:300], 'events': ev if isinstance(ev, list) else str(ev)})
     ctx.phase('correspond')
